@@ -117,3 +117,25 @@ Proof.
   unfold forecast_cum_onephase; cbv zeta. ring.
 Qed.
 Print Assumptions C05_zero_residual_at_generating_parameters.
+
+(* the forecasting method itself (regenerated from ForecasterOnePhase.forecast_cum): explicitly given M and tau are used
+   as given - whatever the object was fitted to, and at the ends of the admissible range (M = 0 gives the zero forecast) -
+   and only arguments that are None fall back to the fitted values *)
+Theorem C05_forecast_method_uses_given_arguments : forall objM objtau (rf : R -> R) ts M tau,
+  forecaster_forecast_cum_given objM objtau rf ts M tau = map (fun t => M * rf (t / tau)) ts.
+Proof. reflexivity. Qed.
+Print Assumptions C05_forecast_method_uses_given_arguments.
+
+Theorem C05_forecast_method_zero_resource_gives_zero : forall objM objtau (rf : R -> R) ts tau,
+  forecaster_forecast_cum_given objM objtau rf ts 0 tau = map (fun _ => 0) ts.
+Proof.
+  intros. rewrite C05_forecast_method_uses_given_arguments. apply map_ext. intros. ring.
+Qed.
+Print Assumptions C05_forecast_method_zero_resource_gives_zero.
+
+Theorem C05_forecast_method_defaults_are_the_fitted_values : forall objM objtau (rf : R -> R) ts M tau,
+  forecaster_forecast_cum_fitted objM objtau rf ts = map (fun t => objM * rf (t / objtau)) ts
+  /\ forecaster_forecast_cum_fitted_tau objM objtau rf ts M = map (fun t => M * rf (t / objtau)) ts
+  /\ forecaster_forecast_cum_fitted_M objM objtau rf ts tau = map (fun t => objM * rf (t / tau)) ts.
+Proof. intros. repeat split; reflexivity. Qed.
+Print Assumptions C05_forecast_method_defaults_are_the_fitted_values.
